@@ -242,6 +242,105 @@ theorem degree_bridge (edges : List (Nat × Nat)) (v : Nat) : C07Src.degree edge
   simp only []
   rw [degree_fold]; simp
 
+/-! ## corner_angles: nested loop writing at a running corner counter -/
+
+/-- `corner_angles`: the corners are numbered face after face, and corner `i` of a face gets `angle_3pts(prev, v, next)`:
+the attribute is the concatenation of the model's `faceCornerCS` of the faces -/
+theorem corner_angles_bridge (vs : List V3) (faces : List Face) :
+    tab (C07Src.corner_angles vs faces) (cornerVerts faces).length = faces.flatMap (faceCornerCS vs) := by
+  unfold C07Src.corner_angles
+  simp only [angle_3pts_bridge]
+  have key := forEach_counter (α := Rat × Rat)
+    (fun (f : Face) i => cornerCS (pt vs (f.getD ((i + f.length - 1) % f.length) 0)) (pt vs (f.getD i 0)) (pt vs (f.getD ((i + 1) % f.length) 0)))
+    List.length faces (fun _ => ((0, 1) : Rat × Rat)) 0
+  rw [key]
+  have hlen : (faces.flatMap (faceCornerCS vs)).length = (cornerVerts faces).length := by
+    simp [faceCornerCS, cornerVerts, List.length_flatMap, List.length_flatten]
+  apply List.ext_getElem
+  · simp [tab, hlen]
+  · intro j h1 h2
+    simp only [tab, List.getElem_map, List.getElem_range, Nat.zero_le, if_true, Nat.sub_zero]
+    have : (faces.flatMap (faceCornerCS vs))[j]? = some (faces.flatMap (faceCornerCS vs))[j] := List.getElem?_eq_getElem h2
+    change ((faces.flatMap (faceCornerCS vs))[j]?).getD (0, 1) = _
+    rw [this]; rfl
+
+/-! ## interpolate.py (whole bodies; values and weights are arbitrary rational attributes) -/
+
+/-- `scatter_vertices_to_corners`: corner `c` receives the value of its vertex -/
+theorem scatter_vertices_to_corners_bridge (faces : List Face) (vattr cattr : Attr Rat) :
+    tab (C07Src.scatter_vertices_to_corners faces vattr cattr) (cornerVerts faces).length = (cornerVerts faces).map vattr := by
+  unfold C07Src.scatter_vertices_to_corners
+  simp only []
+  rw [tab_forEnum_local]
+  · simp only [wr_same, mapIdx_ignore]
+  · unfold IsLocalE; local_body
+
+/-- `interpolate_vertices_to_faces`: clear, accumulate the vertex values of the face, divide by its size: the model's `interpV2F`,
+whatever the output attribute contained before -/
+theorem interpolate_vertices_to_faces_at (faces : List Face) (vattr fattr : Attr Rat) (t : Nat) (ht : t < faces.length) :
+    C07Src.interpolate_vertices_to_faces faces vattr fattr t = rsum (faces[t].map vattr) / (faces[t].length : Rat) := by
+  unfold C07Src.interpolate_vertices_to_faces
+  simp only []
+  rw [forEnum_local_get _ (by unfold IsLocalE; local_body) _ _ t ht, upd_same,
+    forEnum_local_get _ (by intro a i x; simp only [forEach_upd_same]; local_body) _ _ t ht]
+  simp only [forEach_upd_same, upd_same, forEach_sum]
+  simp
+
+theorem interpolate_vertices_to_faces_bridge (faces : List Face) (vals : List Rat) (fattr : Attr Rat) :
+    tab (C07Src.interpolate_vertices_to_faces faces (fun v => vals.getD v 0) fattr) faces.length = faces.map (interpV2F vals) := by
+  apply List.ext_getElem
+  · simp [tab]
+  · intro t h1 h2
+    have ht : t < faces.length := by simpa [tab] using h1
+    simp only [tab, List.getElem_map, List.getElem_range]
+    rw [interpolate_vertices_to_faces_at faces _ fattr t ht]
+    rfl
+
+/-- `interpolate_faces_to_vertices(weight='sum')`: the model's `interpF2VSum` -/
+theorem interpolate_faces_to_vertices_sum (vs : List V3) (faces : List Face) (area angles fattr vattr : Attr Rat) (v : Nat)
+    (hv : v < vs.length) :
+    C07Src.interpolate_faces_to_vertices vs faces area angles fattr vattr "sum" v = rsum ((vertexFaces faces v).map fattr) := by
+  unfold C07Src.interpolate_faces_to_vertices
+  simp only [show ("sum" == "sum") = true from rfl, show ("sum" == "uniform") = false from by decide, Bool.true_or, if_true,
+    Bool.false_eq_true, if_false]
+  rw [forRange_local_at _ (by intro a i; local_body)]
+  simp [hv, wr_same]
+
+/-- `interpolate_faces_to_vertices(weight='uniform')`: the model's `interpF2VUniform` -/
+theorem interpolate_faces_to_vertices_uniform (vs : List V3) (faces : List Face) (area angles fattr vattr : Attr Rat) (v : Nat)
+    (hv : v < vs.length) :
+    C07Src.interpolate_faces_to_vertices vs faces area angles fattr vattr "uniform" v
+      = rsum ((vertexFaces faces v).map fattr) / ((vertexFaces faces v).length : Rat) := by
+  unfold C07Src.interpolate_faces_to_vertices
+  simp only [show ("uniform" == "uniform") = true from rfl, Bool.or_true, if_true]
+  rw [forRange_local_at _ (by intro a i; local_body)]
+  simp [hv, wr_same, upd_same]
+
+/-- `average_corners_to_vertices(weight='sum')`: clear, then every corner adds its value at its vertex -/
+theorem average_corners_to_vertices_sum (vs : List V3) (faces : List Face) (angles cattr vattr : Attr Rat) (v : Nat) :
+    C07Src.average_corners_to_vertices vs faces angles cattr vattr "sum" v
+      = rsum (((cornerVerts faces).zipIdx 0).map (fun p => if p.1 = v then cattr p.2 else 0)) := by
+  unfold C07Src.average_corners_to_vertices
+  simp only [show ("sum" == "uniform") = false from by decide, show ("sum" == "sum") = true from rfl, if_true, Bool.false_eq_true, if_false]
+  rw [forEnum, forEnumFrom_scatter_add]; simp
+
+/-- `average_corners_to_faces(weight='sum')`: the sum over the corners of the face -/
+theorem average_corners_to_faces_sum (faces : List Face) (angles cattr fattr : Attr Rat) (t : Nat) (ht : t < faces.length) :
+    C07Src.average_corners_to_faces faces angles cattr fattr "sum" t = rsum ((faceCorners faces t).map cattr) := by
+  unfold C07Src.average_corners_to_faces
+  simp only [show ("sum" == "uniform") = false from by decide, show ("sum" == "sum") = true from rfl, if_true, Bool.false_eq_true, if_false]
+  rw [forRange_local_at _ (by intro a i; local_body)]
+  simp [ht, wr_same]
+
+/-- `average_corners_to_faces(weight='uniform')`: every corner contributes its value divided by the number of corners of the face -/
+theorem average_corners_to_faces_uniform (faces : List Face) (angles cattr fattr : Attr Rat) (t : Nat) (ht : t < faces.length) :
+    C07Src.average_corners_to_faces faces angles cattr fattr "uniform" t
+      = rsum ((faceCorners faces t).map (fun c => cattr c / ((faceCorners faces t).length : Rat))) := by
+  unfold C07Src.average_corners_to_faces
+  simp only [show ("uniform" == "uniform") = true from rfl, if_true]
+  rw [forRange_local_at _ (by intro a i; simp only [forEach_upd_same]; local_body)]
+  simp [ht, forEach_upd_same, upd_same, forEach_sum]
+
 /-! ## the property theorems, restated about the TRANSLATED bodies (through the bridges) -/
 
 open Mouette.Props.C07 in
